@@ -270,6 +270,66 @@ fn start_client_with<const R: bool>(handle: &Handle, cfg: &EndpointCfg, seed: u6
     }
 }
 
+pub fn attack_payloads(a: &crate::scenario::Attack, seen: &[Arc<Vec<u8>>]) -> Vec<Vec<u8>> {
+    use crate::scenario::AttackKind as K;
+    let get = |back: u16| -> Option<Vec<u8>> {
+        if seen.is_empty() {
+            None
+        } else {
+            Some(seen[vcore::gen::pick_index(back, seen.len())].as_ref().clone())
+        }
+    };
+    match a.kind {
+        K::Random { len } => vec![vcore::gen::prf_vec(a.seed, 0, len.max(1) as usize)],
+        K::Replay { back, copies } => match get(back) {
+            Some(p) => vec![p; 1 + (copies % 8) as usize],
+            None => vec![],
+        },
+        K::Flip { back, pos, mask } => match get(back) {
+            Some(mut p) if !p.is_empty() && mask != 0 => {
+                let i = pos as usize % p.len();
+                p[i] ^= mask;
+                vec![p]
+            }
+            _ => vec![],
+        },
+        K::Truncate { back, keep } => match get(back) {
+            Some(mut p) if p.len() > 1 => {
+                p.truncate(1 + keep as usize % (p.len() - 1));
+                vec![p]
+            }
+            _ => vec![],
+        },
+        K::Extend { back, extra } => match get(back) {
+            Some(mut p) => {
+                p.extend(vcore::gen::prf_vec(a.seed, 7, 1 + (extra % 64) as usize));
+                vec![p]
+            }
+            None => vec![],
+        },
+        K::Splice { back_a, back_b, cut } => match (get(back_a), get(back_b)) {
+            (Some(x), Some(y)) if !x.is_empty() && !y.is_empty() => {
+                let c = 1 + cut as usize % x.len().min(y.len());
+                let mut p = x[..c.min(x.len())].to_vec();
+                p.extend_from_slice(&y[c.min(y.len())..]);
+                if p == x || p == y {
+                    vec![]
+                } else {
+                    vec![p]
+                }
+            }
+            _ => vec![],
+        },
+        K::FirstByte { back, mask } => match get(back) {
+            Some(mut p) if !p.is_empty() && mask != 0 => {
+                p[0] ^= mask;
+                vec![p]
+            }
+            _ => vec![],
+        },
+    }
+}
+
 pub fn stray_payload(st: &crate::scenario::Stray) -> Vec<u8> {
     use crate::scenario::StrayKind;
     let len = st.len as usize;
@@ -408,6 +468,53 @@ pub fn run_with(sc: &Scenario, extras: Extras) -> Outcome {
                     // sockets are registered in start order: server first
                     if let Some(s) = sockets.lock().unwrap().get(ci + 1) {
                         s.rebind(new_addr);
+                    }
+                });
+            }
+
+            // attacker (C06): injects datagrams built from what it has seen on the wire
+            if !sc.attacks.is_empty() {
+                let mut attacks = sc.attacks.clone();
+                attacks.sort_by_key(|a| a.at_us);
+                let net_shared = net_shared.clone();
+                let client0 = client_addrs.first().copied();
+                let trace = trace.clone();
+                spawn(async move {
+                    let foreign: SocketAddr = "1.9.9.9:53123".parse().unwrap();
+                    // the attacker starts once client 0 and the server have both confirmed the handshake
+                    // (racing the unauthenticated Initial exchange is outside the property); times are relative to that instant
+                    let mut t0 = None;
+                    for _ in 0..30_000 {
+                        delay(Duration::from_millis(1)).await;
+                        let confirmed = {
+                            let t = trace.lock().unwrap();
+                            let c = t.recs.iter().any(|r| r.ep == 1 && matches!(r.ev, crate::rec::Ev::HandshakeConfirmed));
+                            let s = t.recs.iter().any(|r| r.ep == 0 && matches!(r.ev, crate::rec::Ev::HandshakeConfirmed) && t.conn_client.get(&(0, r.conn)) == Some(&0));
+                            c && s
+                        };
+                        if confirmed {
+                            t0 = Some(now_us());
+                            break;
+                        }
+                    }
+                    let Some(t0) = t0 else { return };
+                    for a in attacks {
+                        let now = now_us();
+                        let at = t0 + a.at_us as u64;
+                        if at > now {
+                            delay(Duration::from_micros(at - now)).await;
+                        }
+                        let Some(client0) = client0 else { break };
+                        let (dst, peer) = if a.to_server { (server_addr, client0) } else { (client0, server_addr) };
+                        let src = if a.spoof_peer { peer } else { foreign };
+                        // genuine datagrams that were sent to the target so far, most recent first
+                        let seen: Vec<Arc<Vec<u8>>> = {
+                            let st = net_shared.lock().unwrap();
+                            st.log.iter().rev().filter(|n| !n.injected && n.dst == dst).map(|n| n.payload.clone()).collect()
+                        };
+                        for payload in crate::run::attack_payloads(&a, &seen) {
+                            crate::net::inject(&net_shared, src, dst, payload);
+                        }
                     }
                 });
             }
